@@ -36,6 +36,32 @@ def handlers : List (String × Handler) := [
       | some (mt, v, m, n) => s!"ok {mt} {v} {m} {n}"
       | none => "none"
     | _ => "err args"),
+  /- version.reviewed <module key> <name key> → 1 | 0 : is the name in the reviewed list of version-dependent constants -/
+  ("version.reviewed", fun
+    | [m, n] => match m.nat?, n.nat? with
+      | some m, some n => if versionDependent.contains (m, n) then "1" else "0"
+      | _, _ => "err args"
+    | _ => "err args"),
+  /- version.refuteattr → none | ok <model type key> <minor> <class key> <attribute key> <module key> <name key> :
+     first class-level import attribute of a selected class that holds a name the target does not provide -/
+  ("version.refuteattr", fun
+    | [] =>
+      let hits := classImportAttrs.flatMap (fun e => e.2.filterMap (fun a =>
+        (a.2.2.2.find? (bad e.1.2)).map (fun i => (e.1.1, e.1.2, a.2.1, a.2.2.1, i.1, i.2))))
+      match hits.head? with
+      | some (mt, v, c, a, m, n) => s!"ok {mt} {v} {c} {a} {m} {n}"
+      | none => "none"
+    | _ => "err args"),
+  /- version.origin <model type key> <minor> <module key> <name key> → <classattr|typemap|enum|pool|outside> <ok 0|1> :
+     where the tables know this import from for that selection, and whether the target provides it -/
+  ("version.origin", fun
+    | [mt, v, m, n] => match mt.nat?, v.nat?, m.nat?, n.nat? with
+      | some mt, some v, some m, some n =>
+        let o := match origin (mt, v) (m, n) with
+          | .classAttr => "classattr" | .typeMap => "typemap" | .enumModel => "enum" | .pool => "pool" | .outside => "outside"
+        s!"{o} {if bad v (m, n) then 0 else 1}"
+      | _, _, _, _ => "err args"
+    | _ => "err args"),
   /- version.refutehas → none | ok <predicate key> <minor> : predicate value differs from the authored table -/
   ("version.refutehas", fun
     | [] =>
